@@ -374,7 +374,7 @@ def rule_dso(ctx):
                     ok = all(core(d[k])[0] == "field" and core(d[k])[2] == v for k, v in (("addr", "l_addr"), ("ld", "l_ld")))
                     same = ok and nosite(core(d["addr"])[1]) == nosite(core(d["ld"])[1])
                     nm = core(d["name"])
-                    okn = nm[0] == "field" and nm[2] == "rva" and any(s[0] == "call" and s[1].endswith("write_string_to_location") for s in walk(nm)) and any(s[0] == "field" and s[2] == "l_name" and nosite(s[1]) == nosite(core(d["addr"])[1]) for s in walk(nm)) if ok else False
+                    okn = nm[0] == "field" and nm[2] == "rva" and any(s[0] == "call" and s[1]== "mem_writer::write_string_to_location" for s in walk(nm)) and any(s[0] == "field" and s[2] == "l_name" and nosite(s[1]) == nosite(core(d["addr"])[1]) for s in walk(nm)) if ok else False
                     ctx.check(same and okn, R, "link_map", b.where(bi, si), "MDRawLinkMap{addr <- l_addr, ld <- l_ld, name <- string read at l_name} of the same walked element", "link map entry is %s" % show(e)[:200])
                 if an.startswith("DSO_DEBUG"):
                     e = o._rvalue(st["r"], (bi, si), 0)
@@ -470,7 +470,7 @@ def rule_sysinfo(ctx):
             if st["k"] == "assign" and st["p"]["proj"] and st["p"]["proj"][-1]["k"] == "field" and (st["p"]["proj"][-1].get("adt") or "").endswith("MINIDUMP_SYSTEM_INFO"):
                 stores[st["p"]["proj"][-1]["n"]] = (bi, si, o._rvalue(st["r"], (bi, si), 0))
     okp = "platform_id" in stores and any(s[0] == "call" and s[1].endswith("os_information") for s in walk(stores["platform_id"][2]))
-    okv = "csd_version_rva" in stores and any(s[0] == "call" and s[1].endswith("write_string_to_location") and any(q[0] == "call" and q[1].endswith("os_information") for q in walk(s)) for s in walk(stores["csd_version_rva"][2]))
+    okv = "csd_version_rva" in stores and any(s[0] == "call" and s[1]== "mem_writer::write_string_to_location" and any(q[0] == "call" and q[1].endswith("os_information") for q in walk(s)) for s in walk(stores["csd_version_rva"][2]))
     ctx.check(okp and okv, R, "os", b.where(0), "platform_id and the OS version string both come from os_information()", "platform/os version fields: %s" % {k: show(v[2])[:60] for k, v in stores.items()})
     cb = None
     for body in ctx.prog.bodies:
@@ -620,6 +620,27 @@ def rule_auxv_pairs(ctx, R="C18/auxv-pairs"):
                         continue
                     oks = False
         ctx.check(oks, R, "stops-at-AT_NULL-only", b.where(bi, si), "a pair is yielded unless its key is AT_NULL (0)", "pairs are withheld under another condition than key == AT_NULL")
+    # ... and the sequence ENDS (None) only after AT_NULL was seen or after an error was handed out: an end of file before AT_NULL is an
+    # error item (the consumer reports it as a failure of the auxv step), never a silent end
+    nn = 0
+    for bi2, blk2 in enumerate(b.blocks):
+        for si2, st2 in enumerate(blk2["stmts"]):
+            if not (st2["k"] == "assign" and st2["p"]["l"] == 0 and not st2["p"]["proj"]):
+                continue
+            e2 = strip(o._rvalue(st2["r"], (bi2, si2), 0))
+            if not (e2[0] == "agg" and e2[2] == "None"):
+                continue
+            nn += 1
+            dnf2 = conditions(b, bi2, origin=o)
+            okn = bool(dnf2)
+            for c in dnf2 or []:
+                fused = any(strip(a) == ("field", ("param", 1), "keep_going") and v_ == 0 for (a, v_) in c)
+                at_null = any(core(a)[0] == "bin" and core(a)[1] == "Eq" and v_ == 1 and is_const(core(core(a)[3])) and core(core(a)[3])[1] == 0
+                              and any(q[0] == "call" and q[1].endswith("reader::read_long") for q in walk(core(a)[2])) for (a, v_) in c)
+                okn = okn and (fused or at_null)
+            ctx.check(okn, R, ("ends-only-after-AT_NULL", nn), b.where(bi2, si2), "the iterator ends only when fused or on a pair whose key is AT_NULL",
+                      "the iterator can end (None) without having seen AT_NULL: a vector cut short on a pair boundary (or an empty one) looks complete, and the values it should have supplied are missing without any failure being reported")
+    ctx.floor(R, "None returns of the auxv iterator", nn, 2)
     # native word decoding
     ro = Origin(rl)
     sw = [x for x in range(rl.n) if rl.term(x)["k"] == "switch" and is_const(core(switch_atom(rl, ro, x)[0]))]
@@ -668,7 +689,7 @@ def rule_dso_extent(ctx, R="C18/dso-extent"):
         ctx.check(dynf is not None and nosite(core(addr)) == nosite(dynf) or (dynf is not None and any(nosite(q) == nosite(dynf) for q in walk(addr))), R, "copied-from-dynamic", b.where(wbs[0][0]),
                   "the copy starts at the address recorded in MDRawDebug.dynamic", "the appended bytes are copied from %s, MDRawDebug.dynamic is %s" % (show(addr)[:60], show(dynf)[:60] if dynf else "?"))
     # the append directly follows the record: no other allocation between alloc_with_val(debug) and write_bytes
-    allocs = [x for x, t in b.calls(lambda c: (c.short or "").startswith("mem_writer::") and (c.short or "").split("::")[-1] in ("alloc", "alloc_with_val", "alloc_array", "alloc_from_array", "alloc_from_iter", "write_bytes") or (c.short or "").endswith("write_string_to_location"))]
+    allocs = [x for x, t in b.calls(lambda c: (c.short or "").startswith("mem_writer::") and (c.short or "").split("::")[-1] in ("alloc", "alloc_with_val", "alloc_array", "alloc_from_array", "alloc_from_iter", "write_bytes") or (c.short or "")== "mem_writer::write_string_to_location")]
     rec_alloc = [x for x, t in b.calls(lambda c: c.endswith("MemoryWriter::alloc_with_val")) if "DSO_DEBUG" in (t["callee"].get("inst") or "") or "MDRawDebug" in (t["callee"].get("inst") or "")]
     okadj = bool(rec_alloc) and not [x for x in allocs if x not in (rec_alloc[0], wbs[0][0]) and witness_path(b, rec_alloc[0], {x}) and witness_path(b, x, {wbs[0][0]})]
     ctx.check(okadj, R, "adjacent", b.where(wbs[0][0]), "nothing is allocated between the record and the copied section", "another allocation lies between the MDRawDebug record and the copied dynamic section")
